@@ -358,12 +358,9 @@ func mark(v reflect.Value, tok int64, fuel int) bool {
 		return ok
 	case reflect.Struct:
 		done := false
-		for i := 0; i < v.NumField() && !done; i++ {
-			f := settable(v.Field(i))
-			if mark(f, tok, fuel-1) {
+		for i := 0; i < v.NumField(); i++ {
+			if mark(settable(v.Field(i)), tok, fuel-1) {
 				done = true
-			} else {
-				f.Set(reflect.Zero(f.Type()))
 			}
 		}
 		return done
